@@ -590,3 +590,223 @@ func loadsGlobal(v ssa.Value, obj types.Object) bool {
 	}
 	return false
 }
+
+// evalValUnder describes an SSA value under the assumption that some parameters have given constant values: phis keep
+// the edges whose source block is consistent with the assumption (switch cases, `v, ok := table[k]` tests), lookups in
+// package-level map literals are looked up, fields of looked-up struct entries are selected, module functions are
+// followed into their feasible returns. Alternatives are returned as a list.
+func (c *Ctx) evalValUnder(ev *evaluator, v ssa.Value, assume map[*ssa.Parameter]int64, depth int) []*Val {
+	if depth > 10 {
+		return []*Val{unknown("too deep", v.Pos())}
+	}
+	keyOf := func(a ssa.Value) (int64, bool) {
+		if p, ok := a.(*ssa.Parameter); ok {
+			val, known := assume[p]
+			return val, known
+		}
+		if k, ok := a.(*ssa.Const); ok && k.Value != nil && k.Value.Kind() == constant.Int {
+			return k.Int64(), true
+		}
+		return 0, false
+	}
+	lookup := func(lk *ssa.Lookup) (elem *Val, present, ok bool) {
+		u, isLoad := lk.X.(*ssa.UnOp)
+		if !isLoad {
+			return nil, false, false
+		}
+		g, isG := u.X.(*ssa.Global)
+		if !isG {
+			return nil, false, false
+		}
+		key, okK := keyOf(lk.Index)
+		if !okK {
+			return nil, false, false
+		}
+		ks, vs, why := tableOfGlobal(c, ev, g)
+		if why != "" {
+			return nil, false, false
+		}
+		for i := range ks {
+			if kk, isInt := ks[i].Int(); isInt && kk == key {
+				return vs[i], true, true
+			}
+		}
+		return &Val{Kind: "zero", Pos: lk.Pos()}, false, true
+	}
+	feasible := func(b *ssa.BasicBlock) bool {
+		for _, g := range guardsOf(b) {
+			switch x := g.Cond.(type) {
+			case *ssa.BinOp:
+				if x.Op != token.EQL && x.Op != token.NEQ {
+					continue
+				}
+				p, okP := x.X.(*ssa.Parameter)
+				k, okK := x.Y.(*ssa.Const)
+				if !okP || !okK || k.Value == nil || k.Value.Kind() != constant.Int {
+					continue
+				}
+				val, known := assume[p]
+				if !known {
+					continue
+				}
+				if (x.Op == token.EQL) != ((val == k.Int64()) == g.Truth) {
+					return false
+				}
+			case *ssa.Extract:
+				if lk, ok := x.Tuple.(*ssa.Lookup); ok && x.Index == 1 {
+					if _, present, okL := lookup(lk); okL && present != g.Truth {
+						return false
+					}
+				}
+			case *ssa.UnOp:
+				if x.Op == token.NOT {
+					if ex, ok := x.X.(*ssa.Extract); ok && ex.Index == 1 {
+						if lk, ok := ex.Tuple.(*ssa.Lookup); ok {
+							if _, present, okL := lookup(lk); okL && present == g.Truth {
+								return false
+							}
+						}
+					}
+				}
+			}
+		}
+		return true
+	}
+	field := func(in []*Val, name string) []*Val {
+		var out []*Val
+		for _, x := range in {
+			if x.Kind == "struct" && x.Fields != nil {
+				if f, ok := x.Fields[name]; ok {
+					out = append(out, f)
+					continue
+				}
+				out = append(out, &Val{Kind: "zero", Pos: x.Pos})
+				continue
+			}
+			if x.Kind == "zero" {
+				out = append(out, x)
+				continue
+			}
+			out = append(out, unknown("field "+name+" of "+x.String(), x.Pos))
+		}
+		return out
+	}
+	callResult := func(call *ssa.Call, idx int) []*Val {
+		g := call.Call.StaticCallee()
+		if g == nil || !c.InModule(g) || g.Blocks == nil {
+			return nil
+		}
+		as2 := map[*ssa.Parameter]int64{}
+		for i, prm := range g.Params {
+			if i < len(call.Call.Args) {
+				if val, ok := keyOf(call.Call.Args[i]); ok {
+					as2[prm] = val
+				}
+			}
+		}
+		var out []*Val
+		for _, ret := range returnsOf(g) {
+			rr := retResults(ret)
+			if idx >= len(rr) {
+				return nil
+			}
+			out = append(out, c.evalValUnder(ev, rr[idx], as2, depth+1)...)
+		}
+		return out
+	}
+	switch x := v.(type) {
+	case *ssa.Parameter:
+		if val, ok := assume[x]; ok {
+			return []*Val{{Kind: "const", Const: constant.MakeInt64(val), Type: x.Type(), Pos: x.Pos()}}
+		}
+	case *ssa.Phi:
+		var out []*Val
+		for i, e := range x.Edges {
+			if !feasible(x.Block().Preds[i]) {
+				continue
+			}
+			out = append(out, c.evalValUnder(ev, e, assume, depth+1)...)
+		}
+		if len(out) > 0 {
+			return out
+		}
+	case *ssa.Lookup:
+		if elem, _, ok := lookup(x); ok {
+			return []*Val{elem}
+		}
+	case *ssa.Extract:
+		switch t := x.Tuple.(type) {
+		case *ssa.Lookup:
+			if elem, present, ok := lookup(t); ok {
+				if x.Index == 0 {
+					return []*Val{elem}
+				}
+				return []*Val{{Kind: "const", Const: constant.MakeBool(present), Pos: x.Pos()}}
+			}
+		case *ssa.Call:
+			if out := callResult(t, x.Index); out != nil {
+				return out
+			}
+		}
+	case *ssa.Field:
+		return field(c.evalValUnder(ev, x.X, assume, depth+1), fieldOfVal(x).Name())
+	case *ssa.UnOp:
+		if x.Op == token.MUL {
+			if fa, ok := x.X.(*ssa.FieldAddr); ok {
+				// a field of a local that holds a looked-up entry
+				if al, ok := fa.X.(*ssa.Alloc); ok && al.Referrers() != nil {
+					var stored []ssa.Value
+					for _, u := range *al.Referrers() {
+						if st, ok := u.(*ssa.Store); ok && st.Addr == ssa.Value(al) {
+							stored = append(stored, st.Val)
+						}
+					}
+					if len(stored) == 1 {
+						return field(c.evalValUnder(ev, stored[0], assume, depth+1), fieldOfAddr(fa).Name())
+					}
+				}
+			}
+			if al, ok := x.X.(*ssa.Alloc); ok && al.Referrers() != nil {
+				var stored []ssa.Value
+				for _, u := range *al.Referrers() {
+					if st, ok := u.(*ssa.Store); ok && st.Addr == ssa.Value(al) {
+						stored = append(stored, st.Val)
+					}
+				}
+				if len(stored) == 1 {
+					return c.evalValUnder(ev, stored[0], assume, depth+1)
+				}
+			}
+		}
+	case *ssa.Call:
+		if g := x.Call.StaticCallee(); g != nil && !c.InModule(g) {
+			// a library call on evaluated arguments (e.g. crypto.Hash.New)
+			name := c.FuncKey(g)
+			if o, ok := g.Object().(*types.Func); ok {
+				name = calleeName(c, o)
+			}
+			outs := []*Val{{Kind: "call", Fn: name, Pos: x.Pos()}}
+			for _, a := range x.Call.Args {
+				alts := c.evalValUnder(ev, a, assume, depth+1)
+				var next []*Val
+				for _, o := range outs {
+					for _, alt := range alts {
+						cp := *o
+						cp.Args = append(append([]*Val{}, o.Args...), alt)
+						next = append(next, &cp)
+					}
+				}
+				outs = next
+			}
+			return outs
+		}
+		if out := callResult(x, 0); out != nil {
+			return out
+		}
+	case *ssa.MakeInterface:
+		return c.evalValUnder(ev, x.X, assume, depth+1)
+	case *ssa.ChangeType:
+		return c.evalValUnder(ev, x.X, assume, depth+1)
+	}
+	return []*Val{c.describe(ev, v, 0)}
+}
